@@ -62,6 +62,15 @@ static READS_SINCE_WAKE: AtomicU64 = AtomicU64::new(0);
 static WAKES_2PLUS: AtomicU64 = AtomicU64::new(0);
 static WAKES: AtomicU64 = AtomicU64::new(0);
 static KINDS: Mutex<Vec<u8>> = Mutex::new(Vec::new());
+// hang-up: once the script says a device is gone, its readiness is reported the way evdev reports an unplugged device
+// whose queue is empty: EPOLLHUP|EPOLLERR without EPOLLIN
+static HUP_MODE: AtomicBool = AtomicBool::new(false);
+static HUP_DELIVERED: AtomicBool = AtomicBool::new(false);
+static HUP_DEV: AtomicI32 = AtomicI32::new(0);
+static READS_AT_HUP: AtomicU64 = AtomicU64::new(0);
+static HUP_IGNORED: AtomicBool = AtomicBool::new(false);
+// a wait with a time-out (a repeat is pending) that runs to its end and then fails with this errno (0 = off)
+static LATE_EPOLL_FAULT: AtomicI32 = AtomicI32::new(0);
 
 const K_READ_KBD: i32 = 0;
 const K_READ_TAB: i32 = 1;
@@ -141,11 +150,38 @@ pub unsafe extern "C" fn epoll_wait(epfd: libc::c_int, events: *mut libc::epoll_
     if EINTR_NEXT.swap(false, SeqCst) { EINTR_DONE.fetch_add(1, SeqCst); set_errno(libc::EINTR); return -1; }
     if SPURIOUS_NEXT.swap(false, SeqCst) { SPURIOUS_DONE.fetch_add(1, SeqCst); return 0; }
     if READS_SINCE_WAKE.swap(0, SeqCst) >= 2 { WAKES_2PLUS.fetch_add(1, SeqCst); }
+    if HUP_DELIVERED.load(SeqCst) && !HUP_IGNORED.load(SeqCst) && BEGIN[HUP_DEV.load(SeqCst) as usize].load(SeqCst) == READS_AT_HUP.load(SeqCst) {
+      // back to waiting although the hang-up was reported and the device has not been read since
+      HUP_IGNORED.store(true, SeqCst);
+    }
     IN_EPOLL.store(true, SeqCst);
     let r = libc::syscall(libc::SYS_epoll_wait, epfd as libc::c_long, events, maxevents as libc::c_long, timeout as libc::c_long) as libc::c_int;
     let e = get_errno();
     IN_EPOLL.store(false, SeqCst);
     WAKES.fetch_add(1, SeqCst);
+    if r == 0 && timeout > 0 && !FAULTED.load(SeqCst) {
+      let le = LATE_EPOLL_FAULT.load(SeqCst);
+      if le != 0 {
+        // (the call comes back late as well as failed: past the deadline it was given, as after a stall of the machine)
+        let ts = libc::timespec { tv_sec: 0, tv_nsec: 1_500_000 };
+        libc::syscall(libc::SYS_nanosleep, &ts as *const libc::timespec, std::ptr::null_mut::<libc::timespec>());
+        FAULTED.store(true, SeqCst); FAULT_KIND.store(K_EPOLL, SeqCst); FAULT_ERRNO_USED.store(le, SeqCst);
+        set_errno(le);
+        return -1;
+      }
+    }
+    if r > 0 && HUP_MODE.load(SeqCst) && !HUP_DELIVERED.load(SeqCst) {
+      for i in 0..(r as usize) {
+        let ev = events.add(i);
+        let token = (*ev).u64;
+        if token < 2 && END[token as usize].load(SeqCst) {
+          (*ev).events = (libc::EPOLLHUP | libc::EPOLLERR) as u32;
+          HUP_DEV.store(token as i32, SeqCst);
+          READS_AT_HUP.store(BEGIN[token as usize].load(SeqCst), SeqCst);
+          HUP_DELIVERED.store(true, SeqCst);
+        }
+      }
+    }
     set_errno(e);
     return r;
   }
@@ -167,6 +203,8 @@ fn reset_monitor(kbd: i32, tab: i32, out: i32, fault: Option<(u64, [i32; 4])>) {
   OUT_REAL_EAGAIN.store(false, SeqCst);
   READS_SINCE_WAKE.store(0, SeqCst); WAKES_2PLUS.store(0, SeqCst); WAKES.store(0, SeqCst);
   KINDS.lock().unwrap().clear();
+  HUP_MODE.store(false, SeqCst); HUP_DELIVERED.store(false, SeqCst); HUP_IGNORED.store(false, SeqCst); READS_AT_HUP.store(0, SeqCst);
+  LATE_EPOLL_FAULT.store(0, SeqCst);
   ACTIVE.store(true, SeqCst);
 }
 
@@ -184,7 +222,9 @@ pub enum Item {
   Eintr,                   // the loop's next epoll_wait is interrupted by a signal
   Spurious,                // the loop's next epoll_wait returns without any event
   KbEnd,                   // the keyboard reports ENODEV once it has nothing more to read
-  TabEnd
+  TabEnd,
+  HangUp,                  // (before KbEnd / TabEnd) the end is announced as EPOLLHUP|EPOLLERR without EPOLLIN
+  LateEpollFault(i32)      // from now on a wait with a time-out that runs to its end fails with this errno
 }
 
 #[derive(Clone, Debug)]
@@ -214,6 +254,16 @@ fn trec_bytes(r: &TRec) -> [u8; 24] {
 }
 
 fn foreign_kb(rng: &mut Rng, held: &[KeyCode]) -> KRec {
+  if rng.chance(1, 3) {
+    // any small (type, code, value) that is not a key press or release
+    loop {
+      let t = *rng.pick(&[0u16, 0, 0, 1, 2, 3, 4, 5, 0x11, 0x12, 0x14, 0x15, 0x17]);
+      let c = rng.below(8) as u16;
+      let v = rng.below(4) as i32 - 1;
+      if t == 1 && (v == 0 || v == 1) { continue; }
+      return KRec::Foreign(t, c, v);
+    }
+  }
   match rng.below(8) {
     0 | 1 => KRec::Foreign(4, 4, 0x70000 + rng.below(200) as i32),                       // EV_MSC / MSC_SCAN
     2 | 3 => KRec::Foreign(0, 0, 0),                                                       // EV_SYN / SYN_REPORT
@@ -225,6 +275,16 @@ fn foreign_kb(rng: &mut Rng, held: &[KeyCode]) -> KRec {
 }
 
 fn foreign_tab(rng: &mut Rng) -> TRec {
+  if rng.chance(1, 2) {
+    // any small (type, code, value) that is not a tablet-mode switch state
+    loop {
+      let t = *rng.pick(&[0u16, 0, 0, 1, 2, 3, 4, 5, 5, 0x11, 0x12, 0x14, 0x15, 0x17]);
+      let c = rng.below(8) as u16;
+      let v = rng.below(4) as i32 - 1;
+      if t == 5 && c == 1 && (v == 0 || v == 1) { continue; }
+      return TRec::Foreign(t, c, v);
+    }
+  }
   match rng.below(5) {
     0 => TRec::Foreign(0, 0, 0),
     1 => TRec::Foreign(5, 0, rng.below(2) as i32),        // SW_LID
@@ -265,7 +325,7 @@ pub fn gen_script(rng: &mut Rng, hist: &[Event], p: &ScriptParams) -> Script {
       let mut t: Vec<TRec> = vec![];
       let flips = if rng.chance(1, 5) { 2 } else { 1 };
       for _ in 0..flips {
-        if rng.chance(1, 3) { t.push(foreign_tab(rng)); }
+        if rng.chance(1, 2) { t.push(foreign_tab(rng)); if rng.chance(1, 3) { t.push(foreign_tab(rng)); } }
         tablet_on = if rng.chance(1, 6) { tablet_on } else { !tablet_on };
         t.push(TRec::Sw(tablet_on));
         if rng.chance(1, 2) { t.push(TRec::Foreign(0, 0, 0)); }
@@ -277,7 +337,10 @@ pub fn gen_script(rng: &mut Rng, hist: &[Event], p: &ScriptParams) -> Script {
       odd_since_device_event = true;
     }
   }
-  if p.end { items.push(if p.tablet > 0 && rng.chance(1, 5) { Item::TabEnd } else { Item::KbEnd }); }
+  if p.end {
+    if rng.chance(1, 2) { items.push(Item::HangUp); }
+    items.push(if p.tablet > 0 && rng.chance(1, 5) { Item::TabEnd } else { Item::KbEnd });
+  }
   Script { items }
 }
 
@@ -299,6 +362,8 @@ pub struct Outcome {
   pub calls_after_fault: u64,
   pub writes_after_fault: u64,
   pub end_delivered: bool,
+  pub hup_delivered: bool,
+  pub hup_ignored: bool,
   pub writes_after_end: u64,
   pub calls_after_end: u64,
   pub wakes: u64, pub wakes_2plus: u64, pub eintr: u64, pub spurious: u64,
@@ -398,7 +463,7 @@ pub fn strip_special(l: &Layout) -> Layout {
 
 pub fn run_script(layout: &Layout, script: &Script, fault: Option<(u64, [i32; 4])>) -> Outcome {
   let mut oc = Outcome { result: None, panicked: None, sends: vec![], garbled: None, mismatch: None, stuck: None, inconclusive: None, calls: 0, kinds: vec![],
-    fault_kind: -1, fault_errno: 0, calls_after_fault: 0, writes_after_fault: 0, end_delivered: false, writes_after_end: 0, calls_after_end: 0,
+    fault_kind: -1, fault_errno: 0, calls_after_fault: 0, writes_after_fault: 0, end_delivered: false, hup_delivered: false, hup_ignored: false, writes_after_end: 0, calls_after_end: 0,
     wakes: 0, wakes_2plus: 0, eintr: 0, spurious: 0, syncs: 0, tablet_on: 0, sends_checked: 0, records_fed: 0, foreign_fed: 0, feeder_writes: 0 };
   let (kb, tab, outp) = match (mkpipe(true, false, true), mkpipe(true, false, false), mkpipe(true, true, true)) {
     (Some(a), Some(b), Some(c)) => (a, b, c),
@@ -516,6 +581,8 @@ pub fn run_script(layout: &Layout, script: &Script, fault: Option<(u64, [i32; 4]
           }
         }
       },
+      Item::HangUp => { HUP_MODE.store(true, SeqCst); },
+      Item::LateEpollFault(e) => { LATE_EPOLL_FAULT.store(*e, SeqCst); },
       Item::KbEnd | Item::TabEnd => {
         let dev = if *item == Item::KbEnd { 0 } else { 1 };
         // quiescent first: everything written so far is consumed and compared
@@ -537,7 +604,12 @@ pub fn run_script(layout: &Layout, script: &Script, fault: Option<(u64, [i32; 4]
 
   // a script without an end-of-device item gets one now (the keyboard goes away), unless the loop is already beyond judging
   let explicit_end = script.items.iter().any(|i| *i == Item::KbEnd || *i == Item::TabEnd);
-  if !over && !explicit_end && !th.is_finished() {
+  let late = script.items.iter().any(|i| matches!(i, Item::LateEpollFault(_)));
+  if late && !over && !th.is_finished() {
+    // the last event started a repeat: the loop now waits with a time-out, which runs out and then fails
+    if let Wait::Stuck = wait_until(|| FAULTED.load(SeqCst), &th, limit) { oc.inconclusive = Some("no timed wait ran to its end".to_string()); }
+  }
+  if !over && !explicit_end && !late && !th.is_finished() {
     let s0 = BEGIN[0].load(SeqCst);
     let quiet = if oc.feeder_writes > 0 { match wait_until(|| consumed(0, kb.r, s0), &th, limit) { Wait::Drained => true, Wait::Finished => false, Wait::Stuck => {
       if IN_EPOLL.load(SeqCst) && unread_bytes(kb.r) > 0 { oc.stuck = Some(format!("at the end of the script the loop sleeps in epoll_wait while {} bytes of keyboard input are unread", unread_bytes(kb.r))); }
@@ -553,13 +625,15 @@ pub fn run_script(layout: &Layout, script: &Script, fault: Option<(u64, [i32; 4]
   }
   // the loop has been given every reason to return; a loop that instead goes on calling the driver shows in the counters
   if oc.stuck.is_none() && oc.inconclusive.is_none() && !th.is_finished() {
-    match wait_until(|| FAULTED.load(SeqCst) && CALLS_AFTER_FAULT.load(SeqCst) > 0 || END_DELIVERED.load(SeqCst) && CALLS_AFTER_END.load(SeqCst) > 0, &th, limit) {
+    match wait_until(|| FAULTED.load(SeqCst) && CALLS_AFTER_FAULT.load(SeqCst) > 0 || END_DELIVERED.load(SeqCst) && CALLS_AFTER_END.load(SeqCst) > 0 || HUP_IGNORED.load(SeqCst), &th, limit) {
       Wait::Stuck => { oc.inconclusive = Some("watchdog while waiting for the loop to return".to_string()); },
       _ => ()
     }
   }
   let finished_by_itself = th.is_finished();
   if !finished_by_itself {
+    HUP_MODE.store(false, SeqCst);
+    LATE_EPOLL_FAULT.store(0, SeqCst);
     END[0].store(true, SeqCst);
     raw_write_all(kb.w, &rec_bytes(0, 0, 0));
     let t0 = Instant::now();
@@ -571,6 +645,8 @@ pub fn run_script(layout: &Layout, script: &Script, fault: Option<(u64, [i32; 4]
   oc.calls_after_fault = CALLS_AFTER_FAULT.load(SeqCst);
   oc.writes_after_fault = WRITES_AFTER_FAULT.load(SeqCst);
   oc.end_delivered = END_DELIVERED.load(SeqCst);
+  oc.hup_delivered = HUP_DELIVERED.load(SeqCst);
+  oc.hup_ignored = HUP_IGNORED.load(SeqCst);
   oc.writes_after_end = WRITES_AFTER_END.load(SeqCst);
   oc.calls_after_end = CALLS_AFTER_END.load(SeqCst);
   if th.is_finished() {
@@ -616,7 +692,9 @@ pub fn judge(script: &Script, fault: Option<(u64, [i32; 4])>, oc: &Outcome) -> V
     return v;
   }
   if let Some(g) = &oc.garbled { v.push(RV { property: "C10", clause: "output", signature: "C10:real-driver-garbled-output".to_string(), message: g.clone() }); }
-  match fault {
+  let late = script.items.iter().any(|i| matches!(i, Item::LateEpollFault(_)));
+  let fault_eff: Option<u64> = fault.map(|f| f.0).or(if late { Some(u64::MAX) } else { None });
+  match fault_eff {
     None => {
       if let Some((idx, m)) = &oc.mismatch {
         // attribute: a difference that arises at a switch item or in tablet mode is C12's
@@ -626,7 +704,10 @@ pub fn judge(script: &Script, fault: Option<(u64, [i32; 4])>, oc: &Outcome) -> V
         v.push(RV { property: p, clause: "output", signature: sig.to_string(), message: format!("at script item {}: {}", idx, m) });
       }
       if let Some(s) = &oc.stuck { v.push(RV { property: "C10", clause: "unread", signature: "C10:real-driver-waits-with-unread-events".to_string(), message: s.clone() }); }
-      if oc.end_delivered && oc.stuck.is_none() {
+      if oc.hup_ignored {
+        v.push(RV { property: "C10", clause: "end", signature: "C10:real-driver-ignores-hang-up".to_string(), message: "the device was reported gone (EPOLLHUP|EPOLLERR, nothing to read) and the loop went back to waiting without reading it or returning".to_string() });
+      }
+      if oc.end_delivered && oc.stuck.is_none() && !oc.hup_ignored {
         if oc.writes_after_end > 0 { v.push(RV { property: "C10", clause: "end", signature: "C10:real-driver-write-after-end-of-device".to_string(), message: format!("{} write(s) to the virtual keyboard after the device answered ENODEV", oc.writes_after_end) }); }
         match &oc.result {
           Some(Ok(())) => (),
@@ -635,9 +716,10 @@ pub fn judge(script: &Script, fault: Option<(u64, [i32; 4])>, oc: &Outcome) -> V
         }
       }
     },
-    Some((k, _)) => {
+    Some(k) => {
       if oc.fault_kind < 0 { return v; }      // the call to fail was never reached
       let e = oc.fault_errno;
+      let k = if k == u64::MAX { oc.calls } else { k };
       let kind = KIND_NAMES[oc.fault_kind as usize];
       let gone = e == libc::ENODEV && (oc.fault_kind == K_READ_KBD || oc.fault_kind == K_READ_TAB);
       if oc.writes_after_fault > 0 {
@@ -673,14 +755,16 @@ pub fn script_json(s: &Script) -> Value {
   Value::Array(s.items.iter().map(|i| match i {
     Item::Kb(r, sync) => json!({ "kb": r.iter().map(krec_json).collect::<Vec<_>>(), "sync": sync }),
     Item::Tab(r) => json!({ "tab": r.iter().map(trec_json).collect::<Vec<_>>() }),
-    Item::Eintr => json!("EINTR"), Item::Spurious => json!("SPURIOUS"), Item::KbEnd => json!("KB_END"), Item::TabEnd => json!("TAB_END")
+    Item::Eintr => json!("EINTR"), Item::Spurious => json!("SPURIOUS"), Item::KbEnd => json!("KB_END"), Item::TabEnd => json!("TAB_END"),
+    Item::HangUp => json!("HANG_UP"), Item::LateEpollFault(e) => json!({ "late_epoll_fault": e })
   }).collect())
 }
 fn foreign_parse(v: &Value) -> Option<(u16, u16, i32)> { let a = v.as_array()?; Some((a.get(0)?.as_u64()? as u16, a.get(1)?.as_u64()? as u16, a.get(2)?.as_i64()? as i32)) }
 pub fn script_parse(v: &Value) -> Option<Script> {
   let mut items = vec![];
   for i in v.as_array()? {
-    if let Some(s) = i.as_str() { items.push(match s { "EINTR" => Item::Eintr, "SPURIOUS" => Item::Spurious, "KB_END" => Item::KbEnd, "TAB_END" => Item::TabEnd, _ => return None }); continue; }
+    if let Some(s) = i.as_str() { items.push(match s { "EINTR" => Item::Eintr, "SPURIOUS" => Item::Spurious, "KB_END" => Item::KbEnd, "TAB_END" => Item::TabEnd, "HANG_UP" => Item::HangUp, _ => return None }); continue; }
+    if let Some(e) = i.get("late_epoll_fault") { items.push(Item::LateEpollFault(e.as_i64()? as i32)); continue; }
     if let Some(k) = i.get("kb") {
       let mut r = vec![];
       for x in k.as_array()? { if let Some(s) = x.as_str() { r.push(KRec::Key(ev_parse(s)?)); } else { let (t, c, v) = foreign_parse(x)?; r.push(KRec::Foreign(t, c, v)); } }
@@ -733,10 +817,11 @@ pub fn phase(out: &mut ShardOut, opts: &Opts, rng: &mut Rng, cases: &[LayoutCase
   let thorough = opts.thorough();
   let n_cases = opts.num("realdrv", match (prop.as_str(), thorough) { ("C20", false) => 250, ("C20", true) => 5000, (_, false) => 12000, (_, true) => 300000 }) as usize;
   if n_cases == 0 || cases.is_empty() { return; }
+  let specials: Vec<&LayoutCase> = cases.iter().filter(|c| c.has_special).collect();
   let mut bad = 0;
   for ci in 0..n_cases {
     if bad >= 3 { break; }
-    let case = &cases[rng.below(cases.len())];
+    let case = if prop == "C20" && ci % 2 == 0 && !specials.is_empty() { specials[rng.below(specials.len())] } else { &cases[rng.below(cases.len())] };
     let layout = strip_special(&case.layout);
     let (hlen, nm) = match rng.below(300) { 0 => (rng.range(1100, 2600), 4), 1..=8 => (rng.range(30, 90), 20), _ => (rng.range(3, if thorough { 60 } else { 36 }), 4) };
     let wide_case;
@@ -746,6 +831,31 @@ pub fn phase(out: &mut ShardOut, opts: &Opts, rng: &mut Rng, cases: &[LayoutCase
       wide_case = c; &wide_case
     } else { case };
     let hist = crate::loop_mon::gen_history(rng, case2, hlen, nm);
+    if prop == "C20" && case.has_special && ci % 2 == 0 {
+      // a repeat is pending, the timed wait runs to its end and THEN fails (a failure is not always immediate)
+      let mut l2 = case.layout.clone();
+      for m in l2.mappings.iter_mut() { if let Repeat::Special { delay_ms, interval_ms, .. } = &mut m.repeat { *delay_ms = 1 + (delay_ms.unsigned_abs() % 12) as i32; *interval_ms = 1 + (interval_ms.unsigned_abs() % 8) as i32; } }
+      let mut reference = Mapper::for_layout(&l2);
+      let mut cut = None;
+      for (i, e) in hist.iter().enumerate() {
+        if let crate::key_transforms::ResultingRepeat::Repeating { .. } = reference.step(e.clone()).repeat { cut = Some(i); break; }
+      }
+      let cut = match cut { Some(c) => c, None => { out.count("realdrv_late_fault_histories_without_a_special_firing"); continue; } };
+      let sp = ScriptParams { lockstep: true, tablet: 0, oddities: false, end: false, realistic: rng.chance(1, 2) };
+      let mut script = gen_script(rng, &hist[..=cut], &sp);
+      let e = *rng.pick(&EPOLL_ERRNOS);
+      script.items.insert(0, Item::LateEpollFault(e));
+      let oc = run_script(&l2, &script, None);
+      out.count("realdrv_cases");
+      if oc.inconclusive.is_some() { out.count("realdrv_inconclusive_runs"); out.notes.insert("realdrv_last_inconclusive".to_string(), json!(oc.inconclusive)); continue; }
+      if oc.fault_kind < 0 { out.count("realdrv_fault_point_not_reached"); continue; }
+      out.count("realdrv_fault_runs");
+      out.count("realdrv_late_failures_of_a_timed_wait");
+      out.nontrivial(hash64(&(case.id, hash_str(&script_json(&script).to_string()), e, 0x1a7eu32)));
+      let rvs = judge(&script, None, &oc);
+      if record(out, &prop, &rvs, &case.source, &l2, &script, None) { bad += 1; }
+      continue;
+    }
     if prop == "C20" {
       let sp = ScriptParams { lockstep: true, tablet: if rng.chance(1, 2) { 15 } else { 0 }, oddities: rng.chance(1, 3), end: rng.chance(1, 3), realistic: rng.chance(1, 3) };
       let hist: Vec<Event> = hist.into_iter().take(40).collect();
@@ -791,6 +901,7 @@ pub fn phase(out: &mut ShardOut, opts: &Opts, rng: &mut Rng, cases: &[LayoutCase
       out.add("realdrv_quiescent_points_compared", oc.syncs); out.add("realdrv_wakeups", oc.wakes); out.add("realdrv_wakeups_with_2plus_key_records", oc.wakes_2plus);
       out.add("realdrv_interruptions", oc.eintr); out.add("realdrv_empty_wakeups", oc.spurious); out.add("realdrv_writes_compared", oc.sends.len() as u64);
       out.add("realdrv_switch_on", oc.tablet_on); out.add("realdrv_driver_calls", oc.calls);
+      if oc.hup_delivered { out.count("realdrv_hang_ups_reported"); }
       if oc.end_delivered { out.count(if script.items.last() == Some(&Item::TabEnd) { "realdrv_end_tablet" } else { "realdrv_end_keyboard" }); }
       if oc.wakes_2plus > 0 || oc.tablet_on > 0 { out.nontrivial(hash64(&(case.id, hash_str(&script_json(&script).to_string()), 0x7ea1u32))); }
       let rvs = judge(&script, None, &oc);
